@@ -25,6 +25,8 @@ type World struct {
 	Objs     []*Object
 	WG       map[string]int64 // WaitGroup counters after set-up
 	Timers   []*Chan
+	symLeaves  map[string][2]*term.T
+	symLayouts map[string]*symLayout
 	// statistics
 	FuncsSeen map[string]int
 	StubsUsed map[string]int
@@ -757,12 +759,19 @@ func (m *Machine) binop(op token.Token, x, y Value, xt, yt types.Type) Value {
 	}
 	if ax, ok := x.(*AddrV); ok {
 		c, isT := y.(*term.T)
+		if isT && !c.IsConst() && op == token.ADD && c.S == term.BV(64) {
+			sym := c
+			if ax.Sym != nil {
+				sym = m.F.Add(ax.Sym, c)
+			}
+			return &AddrV{Obj: ax.Obj, Path: ax.Path, Off: ax.Off, Nil: ax.Nil, Sym: sym}
+		}
 		if isT && c.IsConst() && (op == token.ADD || op == token.SUB) {
 			d := int64(c.V)
 			if op == token.SUB {
 				d = -d
 			}
-			return &AddrV{Obj: ax.Obj, Path: ax.Path, Off: ax.Off + d, Nil: ax.Nil}
+			return &AddrV{Obj: ax.Obj, Path: ax.Path, Off: ax.Off + d, Nil: ax.Nil, Sym: ax.Sym}
 		}
 		if ay, ok := y.(*AddrV); ok && op == token.ADD {
 			_ = ay
@@ -771,6 +780,13 @@ func (m *Machine) binop(op token.Token, x, y Value, xt, yt types.Type) Value {
 	}
 	if ay, ok := y.(*AddrV); ok {
 		c, isT := x.(*term.T)
+		if isT && !c.IsConst() && op == token.ADD && c.S == term.BV(64) {
+			sym := c
+			if ay.Sym != nil {
+				sym = m.F.Add(ay.Sym, c)
+			}
+			return &AddrV{Obj: ay.Obj, Path: ay.Path, Off: ay.Off, Nil: ay.Nil, Sym: sym}
+		}
 		if isT && c.IsConst() && op == token.ADD {
 			return &AddrV{Obj: ay.Obj, Path: ay.Path, Off: ay.Off + int64(c.V), Nil: ay.Nil}
 		}
@@ -1137,6 +1153,9 @@ func (m *Machine) retype(v Value, to types.Type) Value {
 type UnsafeViolation struct{ Msg string }
 
 func (m *Machine) resolveAddr(a *AddrV, et types.Type) Value {
+	if a.Sym != nil || hasSymLayout(a.Obj.T) {
+		return m.resolveSymAddr(a, et)
+	}
 	// absolute offset of the original pointer inside its object
 	base := m.offsetOf(a.Obj.T, a.Path)
 	want := base + a.Off
